@@ -4,6 +4,7 @@ package main
 // evaluated on what the real code did; one correspondence case per application pair.
 
 import (
+	"strings"
 	"bytes"
 	"encoding/json"
 	"fmt"
@@ -386,7 +387,7 @@ func oracleC06Direct(res *hx.Result, u *universe, in *directInput, wasActive boo
 	if hasDuplicates(in.Contact.Groups) {
 		// the stored contact names a group twice (fixed by 595be89: flows.NewGroupList takes it once)
 		fail = func(class string, input any, detail string) {
-			if class != "direct-noop-modifier:stale-stored-membership-kept" {
+			if !strings.HasPrefix(class, "direct-noop-modifier:") {
 				class = "stored-membership-duplicate-reference"
 			}
 			res.Fail(class, input, detail)
